@@ -98,15 +98,18 @@ PROPS = {
     "C03": {
         "level": "proof",
         "lean_modules": ["SqlizeModel.Props.C03"],
-        "theorems": ["Sqlize.C03.unchanged_prints_nothing", "Sqlize.C03.same_options_unchanged", "Sqlize.migrate_quiet"],
+        "theorems": ["Sqlize.C03.unchanged_prints_nothing", "Sqlize.C03.same_options_unchanged", "Sqlize.migrate_quiet",
+                     "Sqlize.C03.equal_content_empty", "Sqlize.C03.self_diff_empty", "Sqlize.Table.diff_same", "Sqlize.Migration.diff_same"],
         "suites": [{"name": "pair"}, {"name": "struct", "kind": "struct"}],
         "corr_points": ["load-old", "load-new", "state-old", "state-new", "Diff", "state-diff", "StringUp", "StringDown", "StringUp-2nd"],
         "rule": PAIR_RULE,
         "trusted_base": COMMON_TB + PAIR_TB,
         "assumptions": PAIR_ASSUME,
         "explanation": "Proved over the Impl model for all states: tables whose elements carry no action print nothing in either direction, for every "
-                       "dialect/case/field-order setting, and stay quiet (Sqlize.C03.unchanged_prints_nothing). That Diff leaves equal schemas quiet is "
-                       "decided by correspondence + Spec.c03 on the Go output.",
+                       "dialect/case/field-order setting, and stay quiet (Sqlize.C03.unchanged_prints_nothing); Diff of two consistent, freshly loaded "
+                       "models with equal live content (Table.Same: namesake columns/indexes compare equal, same fk names; order and index-type "
+                       "spelling free) returns and leaves nothing to print in either direction (Sqlize.C03.equal_content_empty, self_diff_empty). "
+                       "That two scripts with equal reference schemas load into such models is decided by correspondence + Spec.c03 on the Go output.",
     },
     "C13": {
         "level": "proof",
